@@ -374,7 +374,24 @@ func GenExpr(t *simkit.Tape, env *ExprEnv, typ XType) string {
 }
 
 // GenExprAny draws an expression of a drawn type, biased to node-sets.
+// literals with backslashes (Windows paths, regular-expression fragments): the
+// lexer knows escapes, so a literal may end in a backslash only as the last
+// token of an expression
+var backslashLits = []string{`'C:\temp\'`, `'D:\'`, `'\'`, `'a\b'`, `"x\\"`, `'it\'s'`, `"q\"q"`, `'\n'`, `'a\'`}
+
 func GenExprAny(t *simkit.Tape, env *ExprEnv) (string, XType) {
+	if t.Bool(1, 30) {
+		lit := backslashLits[t.Draw(len(backslashLits))]
+		switch t.Draw(4) {
+		case 0:
+			return lit, TStr
+		case 1:
+			return "//* != " + lit, TBool
+		case 2:
+			return "//*[. = " + lit + "]", TNodeSet
+		}
+		return "string-length(//*) > 0 and //@* = " + lit, TBool
+	}
 	typ := XType(t.Pick(5, 2, 2, 2))
 	return GenExpr(t, env, typ), typ
 }
